@@ -304,7 +304,8 @@ Inductive wop :=
 | PSetTiming (i : nat) (t : option timing)
 | PSetScale (i : nat) (s : option Z)
 | PWrite (i : nat) (r c : nat) (v : Z)
-| PGet (i : nat) (start sc : iarg).
+| PGet (i : nat) (start sc : iarg)
+| PRepickle (i : nat).                      (* object i replaced by its pickle / deepcopy round trip *)
 
 Inductive wout := WNone | WRows (l : list row).
 
@@ -314,6 +315,11 @@ Definition dummy : obj :=
   {| o_kind := KAnalog; o_dtype := 0; o_rows := []; o_ncols := 1; o_start := 0; o_count := 0; o_resizable := true;
      o_timing := empty_timing; o_scale := 0; o_props := [] |}.
 Definition pget (p : pool) (i : nat) : obj := nth i p dummy.
+
+(* pickle.loads(pickle.dumps(o)) or copy.deepcopy(o): the same observable state over a buffer of its own, without slack *)
+Definition repickle (o : obj) : obj :=
+  {| o_kind := o_kind o; o_dtype := o_dtype o; o_rows := firstn (o_count o) (skipn (o_start o) (o_rows o)); o_ncols := o_ncols o;
+     o_start := 0; o_count := o_count o; o_resizable := true; o_timing := o_timing o; o_scale := o_scale o; o_props := o_props o |}.
 
 Definition pstep (p : pool) (op : wop) : pool * res wout * list warning :=
   let upd i (r : res obj) := match r with Ok o' => (pool_set p i o', Ok WNone, []) | Raise e => (p, Raise e, []) end in
@@ -336,4 +342,5 @@ Definition pstep (p : pool) (op : wop) : pool * res wout * list warning :=
   | PSetScale i s => match s with Some s => upd i (Ok (set_scale (pget p i) s)) | None => (p, Raise TypeError, []) end
   | PWrite i r c v => upd i (Ok (write_view (pget p i) r c v))
   | PGet i st sc => (p, do l <- get_data (pget p i) st sc; Ok (WRows l), [])
+  | PRepickle i => upd i (Ok (repickle (pget p i)))
   end.
